@@ -89,7 +89,8 @@ def from_zeep(built, t, z):
         cname = t[1]
         vals = {}
         for fn, ft in built.flat_fields(cname):
-            vals[fn] = from_zeep(built, ft, getattr(z, fn, None))
+            # (zeep keeps the character data of a simpleContent type in _value_1)
+            vals[fn] = from_zeep(built, ft, getattr(z, '_value_1' if ft[0] == 'xd' else fn, None))
         return Obj(cname, **vals)
     if t[0] == 'p' and t[1] == 'ByteArray':
         if isinstance(z, str):
